@@ -21,6 +21,7 @@ pub fn put_prefix(id: usize, dst: &mut [u8]) -> usize {
         11 => b"\x1b",
         12 => b"a\x1b(B",
         13 => b"\x1b(I\x1b",
+        15 => b"a",              // one ASCII unit ahead of the symbolic bytes (any encoding)
         _ => b"\x1b$B\x1b(",
     };
     let mut i = 0;
@@ -29,7 +30,8 @@ pub fn put_prefix(id: usize, dst: &mut [u8]) -> usize {
 }
 
 // params: 0 encoding, 1/2 range of the number of symbolic bytes, 3 sink (0 UTF-16, 1 UTF-8), 4 replacement,
-//         5/6 range of the first symbolic byte (shard), 7 concrete prefix id (ISO-2022-JP escapes)
+//         5/6 range of the first symbolic byte (shard), 7 concrete prefix id (ISO-2022-JP escapes),
+//         8 concrete escape id inserted after the first symbolic byte ("escape, byte, escape": the Standard's output flag)
 harness!(se_h_c01_decode, c01_decode, {
     let e = param(0);
     let sink = param(3);
@@ -39,10 +41,16 @@ harness!(se_h_c01_decode, c01_decode, {
     let mut src = [0u8; 16];
     let mut len = put_prefix(param(7), &mut src);
     let n = sym_range(100, param(1), param(2));
+    let mid = param(8);
     let mut i = 0;
-    while i < n { src[len + i] = sym_u8(i as u32); i += 1; }
-    if n > 0 { assume(src[len] >= lo && src[len] <= hi); }
-    len += n;
+    let first = len;
+    while i < n {
+        src[len] = sym_u8(i as u32);
+        len += 1;
+        if i == 0 && mid != 0 { len += put_prefix(mid, &mut src[len..]); }
+        i += 1;
+    }
+    if n > 0 { assume(src[first] >= lo && src[first] <= hi); }
     let mut dec = new_decoder(e, BOM_OFF);
     let mut run = Run::new(56);
     push(&mut dec, sink, repl, &src[..len], true, &mut run);
